@@ -60,11 +60,13 @@ func c20Tokens(msg string) []string {
 func init() {
 	var namesQ, namesT, wordsQ, wordsT []string
 	namesQ = allStrings(c20Letters[:3], 1, 3)
-	namesT = allStrings(c20Letters, 1, 3)
+	namesT = append(allStrings(c20Letters[:3], 1, 3), allStrings(c20Letters, 1, 2)...)
+	namesT = dedupStrings(namesT)
 	// ũ (C5 A9) ends in the same byte as é (C3 A9); % is a formatting verb introducer
 	wordsQ = append([]string{""}, allStrings([]string{"q", "z", "é", "ß", "€", "ũ", "%"}, 1, 2)...)
 	wordsQ = append(wordsQ, allStrings([]string{"q", "z", "é", "ß"}, 3, 3)...)
-	wordsT = append([]string{""}, allStrings([]string{"q", "z", "é", "j", "ß", "€", "ũ", "%"}, 1, 4)...)
+	wordsT = append([]string{""}, allStrings([]string{"q", "z", "é", "j", "ß", "€", "ũ", "%"}, 1, 2)...)
+	wordsT = append(wordsT, allStrings([]string{"q", "z", "é", "ß"}, 3, 4)...)
 
 	body := func(c *explore.Ctx) {
 		names, words := namesQ, wordsQ
@@ -224,12 +226,25 @@ func init() {
 		ShardDepth: 2,
 		Body:       body,
 		DevBound:   func(bool) int { return 1 },
-		Rule: "every set of 1..3 command names (all strings of length 1..3 over {q,z,é} quick / {q,z,é,j} thorough), every hidden mask, " +
-			"x every word (all strings <= 2 over 7 characters and of length 3 over 4 of them quick / <= 4 over 8 characters thorough, drawn from the letters plus the foreign characters ß (2 bytes), € (3 bytes), ũ (2 bytes, same last byte as é) and %, the empty word, and no word at all) x {fresh parser, parser on which an earlier parse selected a command, hidden marks changed after a first diagnosis on the same parser}; " +
+		Rule: "every set of 1..3 command names (all strings of length 1..3 over {q,z,é}; thorough adds all of length <= 2 over {q,z,é,j}), every hidden mask, " +
+			"x every word (all strings <= 2 over 7 characters and of length 3 over 4 of them quick / <= 2 over 8 characters and of length 3..4 over 4 of them thorough, drawn from the letters plus the foreign characters ß (2 bytes), € (3 bytes), ũ (2 bytes, same last byte as é) and %, the empty word, and no word at all) x {fresh parser, parser on which an earlier parse selected a command, hidden marks changed after a first diagnosis on the same parser}; " +
 			"oracle = textbook rune Levenshtein + the < 1/2 rule; distinct = distinct (error type, names mentioned, suggestion?) observations",
 		Assumptions:  []string{"names mentioned by a message are read back as maximal runs of the alphabet letters, which do not occur in the message templates", "ties between nearest names: any minimiser accepted", "threshold accepted with the name length in bytes or in characters"},
 		RequiredHits: []string{"missing-command", "suggestion", "enumeration", "used-parser"},
 		Bound:        [2]string{"name sets <=3 of names <=3 over 3 letters; words <=3 over 7 characters", "name sets <=3 of names <=3 over 4 letters; words <=4 over 8 characters"},
 		BudgetS:      [2]int{170, 1500},
 	})
+}
+
+func dedupStrings(in []string) []string {
+	seen := map[string]bool{}
+	var out []string
+	for _, x := range in {
+		if !seen[x] {
+			seen[x] = true
+			out = append(out, x)
+		}
+	}
+	sort.Strings(out)
+	return out
 }
